@@ -1143,8 +1143,15 @@ class Ev:
         c = self.frame.root().contract
         inner = node.value
         if isinstance(inner, ast.Call):
-            # generator function under contract: its contract summarises its emissions
+            # generator function under contract: its contract summarises its emissions; a callee that
+            # returns a concrete iterable (e.g. `(b"",)`) has each item yielded here
             v = self.expr(inner)
+            if isinstance(v, VTuple):
+                for item in v.items:
+                    if c is None or c.on_yield is None:
+                        self.unsupported(node, "yield from a tuple without an on_yield hook")
+                    c.on_yield(self, item, node)
+                return NONE
             return v
         v = self.expr(inner)
         if c is None or c.on_yield_from is None:
@@ -1200,6 +1207,11 @@ class Ev:
             if isinstance(o, ListObj) and o.etype is None and isinstance(t, TList):
                 o.etype = t.elem
                 o.cols = [z3.K(z3.IntSort(), _default(s)) for s in leaf_sorts(t.elem)]
+            if isinstance(o, DictObj) and not o.items and isinstance(t, TMap):
+                # `x = {}` declared as a symbolic-key map: the empty map
+                ks = leaf_sorts(t.k)[0]
+                self.st.heap[v.oid] = MapObj(z3.K(ks, z3.BoolVal(False)),
+                                             [z3.K(ks, _default(s_)) for s_ in leaf_sorts(t.v)], t.k, t.v)
 
     def _cut(self, tgt, node):
         """ghost assertion attached to `name = ...` by the contract (`cuts`): proved here, assumed afterwards.
